@@ -191,6 +191,24 @@ pub fn run() -> i32 {
     r.boxes.push(json!({"box": "alpha letters x every spelling of every feature / node / suprasegmental (inverted and plain use)", "spellings": lj.len(), "letters": letters.len(), "comparisons": tl.evals, "equal_ok": tl.equal_ok, "equal_err": tl.equal_err}));
     r.guard(tl.equal_ok > 10_000, "alpha letters x spellings: more than 10k equal Ok outcomes");
     ts.merge(tl);
+    // ---- the arrow spellings in alias lines (the alias lexer is a separate copy of the rule lexer): every line of a pool of romanisers and
+    // deromanisers with `>`, `=>`, `->`, spaced and unspaced, against its `>` form (comments are a feature of rule lines, alias lines have none)
+    let from_pool: [(&str, &str); 7] = [("a", "A"), ("ʃ", "sh"), ("V:[+long]", "+@{macron}"), ("$", "*"), ("a:[+stress]", "á"), ("t, d", "T, D"), ("[+nasal]", "N")];
+    let into_pool: [(&str, &str); 6] = [("sh", "ʃ"), ("A", "a:[+long]"), ("+@{acute}", "[+stress]"), ("c, q", "k, k"), ("ng", "ŋ"), ("+h", "[+sg]")];
+    let alias_words: Vec<String> = ["sha.ta", "Ata.sha", "ta\u{301}.ka", "ca.qa", "anga", "tha.da", "ˈpaː.ta", "ma.ʃa"].iter().map(|s| s.to_string()).collect();
+    let arrows = [" > ", ">", " => ", "=>", " -> ", "->", "  ->  ", "\t=>\t"];
+    let mut tar = Acc::default();
+    for (is_into, pool) in [(false, &from_pool[..]), (true, &into_pool[..])] { for (l, rr) in pool {
+        let mk = |ar: &str| -> String { format!("{}{}{}", l, ar, rr) };
+        let base = vec![mk(" > ")];
+        for ar in &arrows[1..] {
+            let alt = vec![mk(ar)];
+            if is_into { cmp("alias-arrow", &[], &[], &alias_words, &alias_words, (&base, &[]), (&alt, &[]), &mut tar); } else { cmp("alias-arrow", &[], &[], &alias_words, &alias_words, (&[], &base), (&[], &alt), &mut tar); }
+        }
+    } }
+    r.boxes.push(json!({"box": "arrow spellings in alias lines (7 romanisers, 6 deromanisers x 7 respellings)", "comparisons": tar.evals, "equal_ok": tar.equal_ok, "equal_err": tar.equal_err}));
+    r.guard(tar.equal_ok > 500, "alias arrows: more than 500 equal Ok outcomes");
+    ts.merge(tar);
     // ---- word respellings
     let mut tw = Acc::default();
     let wrules: Vec<Vec<String>> = vec![vec![], vec!["a > e".into()], vec!["V:[+long] > [-long]".into(), "C > [+voice] / V_V".into()], vec!["% > [tone:5] / _#".into()], vec!["[+cons, -voice] > [+cont]".into()], vec!["n > ɲ / _i".into(), "t > t͡s / _a".into()]];
